@@ -106,7 +106,8 @@ def _check_program(R, rng, tmp, src, calls, label):
         comp = diff.Compiled(src, optimize=opt)
         # file names: the unoptimised module is stored as prog.nslir, the optimised one under a name with another / no
         # suffix right next to it (a loader that guesses suffixes must not confuse them)
-        out_name = "prog.nslir" if not opt else rng.choice(["prog.O1", "prog", "prog.v2.nslir", "prog.nslir.O1"])
+        # ... or it overwrites the unoptimised module under the very same name (the later store must win)
+        out_name = "prog.nslir" if not opt else rng.choice(["prog.O1", "prog", "prog.v2.nslir", "prog.nslir.O1", "prog.nslir", "prog.nslir"])
         rc, out = runner.nslc(tmp, "p.nsl", out_name, optimize=opt)
         R.count("nslc_processes")
         stored = rc == 0 and os.path.exists(os.path.join(tmp, out_name)) and os.path.getsize(os.path.join(tmp, out_name)) > 0
